@@ -51,4 +51,50 @@ def fIncDec (f : FloatTy) (post dec : Bool) (x : Dy) : Dy × Dy :=
   let nw := fbin f (if dec then .sub else .add) x Dy.one
   (if post then x else nw, nw)
 
+/-! ## Special values: signed zeros, infinities, NaN (comparisons and unary minus) -/
+
+/-- a floating-point value including the special ones (`fin d` has `d.num ≠ 0`) -/
+inductive FV
+  | nan
+  | inf (neg : Bool)
+  | zero (neg : Bool)
+  | fin (d : Dy)
+deriving Repr
+
+def FV.isNan : FV → Bool | .nan => true | _ => false
+
+/-- unary minus flips the sign -- of a zero too (`-(+0.0)` is `-0.0`, which `0 - x` is not) -/
+def FV.neg : FV → FV
+  | .nan => .nan
+  | .inf n => .inf (!n)
+  | .zero n => .zero (!n)
+  | .fin d => .fin d.neg
+
+/-- `a < b` for non-NaN values (the two zeros are equal) -/
+def FV.ltB : FV → FV → Bool
+  | .nan, _ | _, .nan => false
+  | .inf true, .inf true => false
+  | .inf true, _ => true
+  | _, .inf true => false
+  | .inf false, _ => false
+  | _, .inf false => true
+  | .zero _, .zero _ => false
+  | .zero _, .fin d => decide (0 < d.num)
+  | .fin d, .zero _ => decide (d.num < 0)
+  | .fin a, .fin b => decide (a.num * 2 ^ b.k < b.num * 2 ^ a.k)
+
+inductive FCmp | eq | ne | lt | le | gt | ge
+deriving DecidableEq, Repr
+
+/-- the six comparison operators (IEEE-754): every comparison with a NaN is false, except `!=` which is true -/
+def fcmp (op : FCmp) (a b : FV) : Bool :=
+  if a.isNan || b.isNan then (op == .ne) else
+  match op with
+  | .lt => a.ltB b
+  | .gt => b.ltB a
+  | .le => !(b.ltB a)
+  | .ge => !(a.ltB b)
+  | .eq => !(a.ltB b) && !(b.ltB a)
+  | .ne => a.ltB b || b.ltB a
+
 end Rlbox
